@@ -79,3 +79,81 @@ class TIdSequenceMode:
 
     def lift(case, model):
         return dict(ddl="CREATE SEQUENCE sq %s 5;" % model.get("v", "Increment"))
+
+
+# ------------------------------------------------------------------ evolution of the context flags
+@contract
+class ParenthesisDepth:
+    """lp_open counts the parentheses still open: a closing parenthesis decrements it (never below zero), the one that
+    closes the column list switches to the after-columns context; last_par remembers the kind of the last parenthesis"""
+    fn = "ddl_parser.DDLParser.set_parenthesis_tokens"
+    props = ["C01", "C09", "C11"]
+    cases = {"any-token": {}}
+
+    def build(G, case):
+        flags = lexer_flags(G, lp_open=G.int("lx.lp_open", 0))
+        return dict(args=[G.parser(lexer=flags), G.token(G.str("v"), G.str("ty", r"[A-Z_]+", "RP"))])
+
+    def spec(case, self_, t):
+        if t.type == "RP":
+            if self_.lexer.lp_open > 0:
+                self_.lexer.lp_open = self_.lexer.lp_open - 1
+                if self_.lexer.lp_open == 0:
+                    self_.lexer.after_columns = True
+            self_.lexer.last_par = "RP"
+        elif t.type == "LP":
+            self_.lexer.last_par = "LP"
+
+
+@contract
+class OpeningParenthesis:
+    """'(' : one more open parenthesis, the column-definition context starts, the token is LP"""
+    fn = "ddl_parser.DDLParser.t_ID"
+    props = ["C01", "C09"]
+    cases = {"(": {}}
+
+    def build(G, case):
+        flags = lexer_flags(G, lp_open=G.int("lx.lp_open", 0))
+        return dict(args=[G.parser(lexer=flags), G.token("(", "ID")])
+
+    def spec(case, self_, t):
+        t.type = "LP"
+        self_.lexer.lp_open = self_.lexer.lp_open + 1
+        self_.lexer.columns_def = True
+        self_.lexer.last_token = "LP"
+        return t
+
+
+@contract
+class StatementKindFlags:
+    """the statement-kind flags follow the keywords: ALTER -> is_alter, LIKE -> is_like, TYPE / DOMAIN / TABLESPACE clear
+    is_table, TABLE / INDEX set it (outside ALTER); a comma between column definitions ends a CHECK context"""
+    fn = "ddl_parser.DDLParser.set_lexx_tags"
+    props = ["C01", "C03", "C09"]
+    cases = {"any-token": {}}
+
+    def build(G, case):
+        flags = lexer_flags(G, lp_open=G.int("lx.lp_open", 0))
+        types = ["ALTER", "LIKE", "TYPE", "DOMAIN", "TABLESPACE", "TABLE", "INDEX", "COMMA", "RP", "LP", "ID", "CHECK", "CREATE"]
+        return dict(args=[G.parser(lexer=flags), G.token(G.str("v"), types[G.choice("type", len(types))])])
+
+    def spec(case, self_, t):
+        lx = self_.lexer
+        if t.type == "RP":
+            if lx.lp_open > 0:
+                lx.lp_open = lx.lp_open - 1
+                if lx.lp_open == 0:
+                    lx.after_columns = True
+            lx.last_par = "RP"
+        elif t.type == "LP":
+            lx.last_par = "LP"
+        if t.type == "ALTER":
+            lx.is_alter = True
+        if t.type == "COMMA" and lx.lp_open == 1 and lx.is_table:
+            lx.check = False
+        if t.type == "LIKE":
+            lx.is_like = True
+        elif t.type in ["TYPE", "DOMAIN", "TABLESPACE"]:
+            lx.is_table = False
+        elif t.type in ["TABLE", "INDEX"] and not lx.is_alter:
+            lx.is_table = True
